@@ -247,6 +247,14 @@ Qed.
 Lemma good_sn_send s p : Inv s -> sendable p -> good (sn_send s p).
 Proof. apply good_sn_send_owned. Qed.
 
+Lemma good_sn_send_now s p : Inv s -> sendable p -> good (sn_send_now s p).
+Proof.
+  intros H Hp. unfold sn_send_now.
+  destruct (len (pack p) <=? MaxPacketLen) eqn:Hl; [|apply good_stop, H].
+  split; [exact H|]. constructor; [|constructor]. cbn [out_ok].
+  apply sendable_dgram_ok; [exact Hp|]. apply N.leb_le, Hl.
+Qed.
+
 Lemma good_mq_send s m : Inv s -> mqtt_valid (wire m) = true -> good (mq_send s m).
 Proof. intros H Hm. split; [exact H|]. constructor; [exact Hm|constructor]. Qed.
 
@@ -289,6 +297,7 @@ Ltac gstep :=
   | |- good (stop _ [] _) => apply good_stop; inv_tac
   | |- good (andthen _ _) => apply good_andthen; [|intros ? ?]
   | |- good (sn_send _ _) => apply good_sn_send; [inv_tac|]
+  | |- good (sn_send_now _ _) => apply good_sn_send_now; [inv_tac|]
   | |- good (sn_send_owned _ _ _) => apply good_sn_send_owned; [inv_tac|]
   | |- good (mq_send _ _) => apply good_mq_send; [inv_tac|]
   | |- good (send_all _ _) => apply good_send_all; [inv_tac|]
